@@ -74,9 +74,10 @@ namespace fsw
     // A genuinely single-pass input iterator (like std::istreambuf_iterator): all copies share one cursor, a range can be
     // neither measured nor read twice.
     template <class CT> struct SPState { const CT* data; size_t pos, n; };
-    template <class CT> struct SinglePass
+    struct derived_input_tag : std::input_iterator_tag {};     // iterator libraries define their own tags derived from the standard ones
+    template <class CT, class Tag = std::input_iterator_tag> struct SinglePass
     {
-        using iterator_category = std::input_iterator_tag;
+        using iterator_category = Tag;
         using value_type = CT;
         using difference_type = std::ptrdiff_t;
         using pointer = const CT*;
@@ -90,6 +91,37 @@ namespace fsw
         SinglePass operator++(int) { SinglePass t(*this); ++st->pos; return t; }
         friend bool operator==(const SinglePass& a, const SinglePass& b) { return a.at_end() == b.at_end(); }
         friend bool operator!=(const SinglePass& a, const SinglePass& b) { return !(a == b); }
+    };
+
+    // A random-access range that is generated, not stored: it can be far longer than any memory
+    template <class CT> struct Counting
+    {
+        using iterator_category = std::random_access_iterator_tag;
+        using value_type = CT;
+        using difference_type = std::ptrdiff_t;
+        using pointer = const CT*;
+        using reference = CT;
+        uint64_t i = 0;
+        Counting() {}
+        explicit Counting(uint64_t k) : i(k) {}
+        CT operator*() const { return static_cast<CT>('a' + i % 4); }
+        CT operator[](difference_type d) const { return static_cast<CT>('a' + (i + static_cast<uint64_t>(d)) % 4); }
+        Counting& operator++() { ++i; return *this; }
+        Counting operator++(int) { Counting t(*this); ++i; return t; }
+        Counting& operator--() { --i; return *this; }
+        Counting operator--(int) { Counting t(*this); --i; return t; }
+        Counting& operator+=(difference_type d) { i += static_cast<uint64_t>(d); return *this; }
+        Counting& operator-=(difference_type d) { i -= static_cast<uint64_t>(d); return *this; }
+        friend Counting operator+(Counting a, difference_type d) { a += d; return a; }
+        friend Counting operator+(difference_type d, Counting a) { a += d; return a; }
+        friend Counting operator-(Counting a, difference_type d) { a -= d; return a; }
+        friend difference_type operator-(const Counting& a, const Counting& b) { return static_cast<difference_type>(a.i - b.i); }
+        friend bool operator==(const Counting& a, const Counting& b) { return a.i == b.i; }
+        friend bool operator!=(const Counting& a, const Counting& b) { return a.i != b.i; }
+        friend bool operator<(const Counting& a, const Counting& b) { return a.i < b.i; }
+        friend bool operator>(const Counting& a, const Counting& b) { return a.i > b.i; }
+        friend bool operator<=(const Counting& a, const Counting& b) { return a.i <= b.i; }
+        friend bool operator>=(const Counting& a, const Counting& b) { return a.i >= b.i; }
     };
 
     struct Ret
@@ -255,6 +287,7 @@ namespace fsw
             if (sel == 12) return static_cast<CT>(0x80 + raw % 0x80);
             if (sel == 13 && !is_char)
             {
+                if ((raw & 3) == 2) return static_cast<CT>(0x100u * (1 + (raw >> 2) % 0x7f) + static_cast<unsigned>('a' + (raw >> 9) % 4));   // 'a'..'d' in the low byte only
                 if (sizeof(CT) >= 4 && (raw & 3) == 3) return static_cast<CT>(0x80000000u + (raw >> 2) % 0x100);    // top bit set: negative where CT is signed (wchar_t)
                 if (sizeof(CT) == 2 && (raw & 3) == 3) return static_cast<CT>(0xFF00u + (raw >> 2) % 0x100);
                 return static_cast<CT>(sizeof(CT) >= 4 && (raw & 1) ? 0x10000 + raw % 0xFFFFF : 0x100 + raw % 0xF000);
@@ -298,6 +331,36 @@ namespace fsw
                 break;
             default: { std::vector<CT> v(arg.begin(), arg.end()); f(v.begin(), v.end()); } break;
             }
+        }
+        // The counted source [data()+ak, +an) of an aliasing call.  The object gets the pointer into itself; the model gets a
+        // copy of those characters taken before the call, so that its result is the "as if the source had been copied first"
+        // result by construction (libstdc++'s own handling of a source that runs over the terminator is not dependable).
+        template <class Side, class T> static const CT* own_chars(const Side&, T& t, size_t ak, size_t an, Str& hold)
+        {
+            if (!Side::is_model) return static_cast<const CT*>(t.data()) + ak;
+            hold.assign(static_cast<const CT*>(t.data()) + ak, an);
+            return hold.data();
+        }
+        // one aliasing source in four runs over the string's own terminator (a readable NUL character)
+        bool over_terminator(const Step& st) const { return nul_on && LAYOUT != L_STRLEN && ((st.d >> 12) & 3) == 0; }
+        // a single-pass range over arg whose category is input_iterator_tag itself or a tag derived from it
+        template <class F> static void with_single_pass(uint64_t kind, const Str& arg, F f)
+        {
+            SPState<CT> sp{arg.data(), 0, arg.size()};
+            SIM_PROBE("single_pass_input_range");
+            if (kind & 16) f(SinglePass<CT, derived_input_tag>(&sp), SinglePass<CT, derived_input_tag>());
+            else f(SinglePass<CT>(&sp), SinglePass<CT>());
+        }
+        // C02 only: one range in sixteen is a generated range of 2^32 + k elements, k small enough to fit.  No string can
+        // take it: the model "throws" length_error without looking at it, the object must do the same - at once and unchanged
+        bool huge_range(uint64_t kind) const { return Throwing && mode == M_C02 && ((kind >> 5) & 15) == 15; }
+        template <class Side, class F> void with_range_c02(const Side& side, uint64_t kind, const Str& arg, size_t fits, F f)
+        {
+            if (!huge_range(kind)) { with_range(kind, arg, f); return; }
+            SIM_PROBE("generated_range_of_more_than_2^32_elements");
+            if (Side::is_model) throw std::length_error("generated range longer than any string");
+            (void)side;
+            f(Counting<CT>(0), Counting<CT>((uint64_t(1) << 32) + fits));
         }
         static bool has_nul(const Str& s) { return s.find(CT()) != Str::npos; }
         // std::basic_string arguments carry their length: embedded NULs in them are ordinary characters
@@ -552,7 +615,7 @@ namespace fsw
                 case 10: with_range(st.d, arg, [&](auto b, auto e) { side.construct(b, e); }); break;
                 case 11: side.construct(side.at(pi)); break;
                 case 12: side.construct(side.mv(side.at(pi))); break;
-                default: { SPState<CT> sp{arg.data(), 0, arg.size()}; last_add = n; SIM_PROBE("single_pass_input_range"); side.construct(SinglePass<CT>(&sp), SinglePass<CT>()); } break;
+                default: last_add = n; with_single_pass(st.d, arg, [&](auto b, auto e) { side.construct(b, e); }); break;
                 }
                 return Ret();
             }, true, true);
@@ -602,6 +665,7 @@ namespace fsw
             size_t slen = model[s].size();
             size_t ak = pos_in(st.c >> 11, slen);
             size_t an = std::min(cnt_clamp(st.c >> 23, slen - ak), slen - ak);
+            if (over_terminator(st)) { an = slen - ak + 1; SIM_PROBE("own_terminator_as_source_character"); }
             size_t n = cnt_add(st.a, N);
             size_t ppos = pos_any(st.b, plen);
             size_t pcnt = cnt_clamp(st.a >> 5, plen - std::min(ppos, plen));
@@ -621,15 +685,15 @@ namespace fsw
                 case 3: last_add = n; t.assign(static_cast<const CT*>(hp.get()), n); break;
                 case 4: t.assign(static_cast<const CT*>(hp.get())); break;
                 case 5: with_il(n, nz(ch), y, z, [&](IL il) { t.assign(il); }); break;
-                case 6: with_range(st.d, arg, [&](auto b, auto e) { t.assign(b, e); }); break;
+                case 6: with_range_c02(side, st.d, arg, static_cast<size_t>(st.b % (N + 1)), [&](auto b, auto e) { t.assign(b, e); }); break;
                 case 7: t.assign(side.at(pi)); break;
                 case 8: t.assign(side.mv(side.at(pi))); break;
                 case 9: t.assign(arg); break;
                 case 10: t.assign(arg, apos, acnt); break;
                 case 11: t.assign(arg, apos); break;
-                case 12: t.assign(static_cast<const CT*>(t.data()) + ak, an); break;
+                case 12: { Str hold; t.assign(own_chars(side, t, ak, an, hold), an); } break;
                 case 13: t.assign(static_cast<const CT*>(t.c_str()) + ak); break;
-                case 14: { SPState<CT> sp{arg.data(), 0, arg.size()}; last_add = n; SIM_PROBE("single_pass_input_range"); t.assign(SinglePass<CT>(&sp), SinglePass<CT>()); } break;
+                case 14: last_add = n; with_single_pass(st.d, arg, [&](auto b, auto e) { t.assign(b, e); }); break;
                 default: last_add = n; t.assign(n, t[slen ? static_cast<size_t>((st.c >> 30) % slen) : 0]); break;
                 }
                 return Ret();
@@ -810,6 +874,7 @@ namespace fsw
             size_t len = model[s].size(), room = N - std::min(len, N);
             size_t ak = pos_in(st.c >> 11, len);                                  // own characters [ak, ak+an) as the source
             size_t an = std::min(cnt_clamp(st.c >> 23, len - ak), len - ak);
+            if (over_terminator(st)) { an = len - ak + 1; SIM_PROBE("own_terminator_as_source_character"); }
             size_t idx = ((v >= 9 && v <= 12) || v == 15 || v >= 17) ? pos_in(st.a, len) : pos_any(st.a, len);
             size_t n = cnt_add(st.b, room);
             size_t ck = len ? static_cast<size_t>((st.c >> 30) % len) : 0;       // the fill character is the string's own character ck, passed as it is
@@ -840,11 +905,11 @@ namespace fsw
                 case 9: { last_add = 1; auto it = t.insert(t.cbegin() + di, ch); return side.rv(static_cast<uint64_t>(it - t.begin())); }
                 case 10: { last_add = n; auto it = t.insert(t.cbegin() + di, n, ch); return side.rv(static_cast<uint64_t>(it - t.begin())); }
                 case 11: { uint64_t r = 0; last_add = 3; with_il(n, nz(ch), y, z, [&](IL il) { auto it = t.insert(t.cbegin() + di, il); r = static_cast<uint64_t>(it - t.begin()); }); return side.rv(r); }
-                case 12: { last_add = n; uint64_t r = 0; with_range(st.d, arg, [&](auto b, auto e) { auto it = t.insert(t.cbegin() + di, b, e); r = static_cast<uint64_t>(it - t.begin()); }); return side.rv(r); }
-                case 13: last_add = an; t.insert(idx, static_cast<const CT*>(t.data()) + ak, an); break;
+                case 12: { last_add = n; uint64_t r = 0; with_range_c02(side, st.d, arg, static_cast<size_t>(st.c % (room + 1)), [&](auto b, auto e) { auto it = t.insert(t.cbegin() + di, b, e); r = static_cast<uint64_t>(it - t.begin()); }); return side.rv(r); }
+                case 13: { last_add = an; Str hold; t.insert(idx, own_chars(side, t, ak, an, hold), an); } break;
                 case 14: last_add = len - ak; t.insert(idx, static_cast<const CT*>(t.c_str()) + ak); break;
-                case 15: { SPState<CT> sp{arg.data(), 0, arg.size()}; last_add = n; SIM_PROBE("single_pass_input_range");
-                           auto it = t.insert(t.cbegin() + di, SinglePass<CT>(&sp), SinglePass<CT>()); return side.rv(static_cast<uint64_t>(it - t.begin())); }
+                case 15: { last_add = n; uint64_t r = 0;
+                           with_single_pass(st.d, arg, [&](auto b, auto e) { auto it = t.insert(t.cbegin() + di, b, e); r = static_cast<uint64_t>(it - t.begin()); }); return side.rv(r); }
                 case 16: last_add = n; t.insert(idx, n, t[ck]); break;
                 case 17: { last_add = 1; auto it = t.insert(t.cbegin() + di, t[ck]); return side.rv(static_cast<uint64_t>(it - t.begin())); }
                 default: { last_add = n; auto it = t.insert(t.cbegin() + di, n, t[ck]); return side.rv(static_cast<uint64_t>(it - t.begin())); }
@@ -894,6 +959,7 @@ namespace fsw
             size_t len = model[s].size(), room = N - std::min(len, N);
             size_t ak = pos_in(st.c >> 11, len);
             size_t an = std::min(cnt_clamp(st.c >> 23, len - ak), len - ak);
+            if (over_terminator(st)) { an = len - ak + 1; SIM_PROBE("own_terminator_as_source_character"); }
             size_t n = cnt_add(st.b, room);
             size_t plen = model[pi].size();
             size_t ppos = pos_any(st.a, plen);
@@ -918,10 +984,10 @@ namespace fsw
                 case 7: last_add = n; t.append(static_cast<const CT*>(hp.get()), n); break;
                 case 8: last_add = n; t.append(static_cast<const CT*>(hp.get())); break;
                 case 9: last_add = 3; with_il(n, nz(ch), y, z, [&](IL il) { t.append(il); }); break;
-                case 10: last_add = n; with_range(st.d, arg, [&](auto b, auto e) { t.append(b, e); }); break;
-                case 11: last_add = an; t.append(static_cast<const CT*>(t.data()) + ak, an); break;
+                case 10: last_add = n; with_range_c02(side, st.d, arg, static_cast<size_t>(st.c % (N + 1)), [&](auto b, auto e) { t.append(b, e); }); break;
+                case 11: { last_add = an; Str hold; t.append(own_chars(side, t, ak, an, hold), an); } break;
                 case 12: last_add = len - ak; t.append(static_cast<const CT*>(t.c_str()) + ak); break;
-                case 13: { SPState<CT> sp{arg.data(), 0, arg.size()}; last_add = n; SIM_PROBE("single_pass_input_range"); t.append(SinglePass<CT>(&sp), SinglePass<CT>()); } break;
+                case 13: last_add = n; with_single_pass(st.d, arg, [&](auto b, auto e) { t.append(b, e); }); break;
                 default: last_add = n; t.append(n, t[len ? static_cast<size_t>((st.c >> 30) % len) : 0]); break;
                 }
                 return Ret();
@@ -1031,6 +1097,7 @@ namespace fsw
             size_t len = model[s].size();
             size_t ak = pos_in(st.c >> 21, len);
             size_t an = std::min(cnt_clamp(st.c >> 33, len - ak), len - ak);
+            if (over_terminator(st)) { an = len - ak + 1; SIM_PROBE("own_terminator_as_source_character"); }
             size_t pos = its ? pos_in(st.a, len) : pos_any(st.a, len);
             size_t cnt = cnt_clamp(st.a >> 11, len - std::min(pos, len));
             size_t first = pos_in(st.a, len);
@@ -1073,12 +1140,12 @@ namespace fsw
                 case 12: t.replace(pos, cnt, n, ch); break;
                 case 13: t.replace(f, l, n, ch); break;
                 case 14: last_add = 3; with_il(n, nz(ch), y, z, [&](IL il) { t.replace(f, l, il); }); break;
-                case 15: with_range(st.d, arg, [&](auto b, auto e) { t.replace(f, l, b, e); }); break;
-                case 16: last_add = an; t.replace(pos, cnt, static_cast<const CT*>(t.data()) + ak, an); break;
-                case 17: last_add = an; t.replace(f, l, static_cast<const CT*>(t.data()) + ak, an); break;
+                case 15: with_range_c02(side, st.d, arg, static_cast<size_t>(st.c % (N + 1)), [&](auto b, auto e) { t.replace(f, l, b, e); }); break;
+                case 16: { last_add = an; Str hold; t.replace(pos, cnt, own_chars(side, t, ak, an, hold), an); } break;
+                case 17: { last_add = an; Str hold; t.replace(f, l, own_chars(side, t, ak, an, hold), an); } break;
                 case 18: last_add = len - ak; t.replace(pos, cnt, static_cast<const CT*>(t.c_str()) + ak); break;
                 case 19: last_add = len - ak; t.replace(f, l, static_cast<const CT*>(t.c_str()) + ak); break;
-                case 20: { SPState<CT> sp{arg.data(), 0, arg.size()}; SIM_PROBE("single_pass_input_range"); t.replace(f, l, SinglePass<CT>(&sp), SinglePass<CT>()); } break;
+                case 20: with_single_pass(st.d, arg, [&](auto b, auto e) { t.replace(f, l, b, e); }); break;
                 case 21: t.replace(pos, cnt, n, t[len ? static_cast<size_t>((st.c >> 30) % len) : 0]); break;
                 default: t.replace(f, l, n, t[len ? static_cast<size_t>((st.c >> 30) % len) : 0]); break;
                 }
